@@ -19,8 +19,9 @@ RULE = ("Hypothesis: products (and short sums) of tensors / creation and "
         "annihilation operators with 1-4 Kronecker deltas forming chains "
         "over occ/virt/general and alpha/beta/no-spin indices (mixed inside "
         "one term), every summed index constructed to sit on >= 1 non-delta "
-        "object; evaluate_deltas with Einstein targets and with the same "
-        "targets given explicitly; oracle: value on a spin- and "
+        "object, 1 in 12 deltas links indices of different spaces / opposite "
+        "spins (the term is then identically zero); evaluate_deltas with "
+        "Einstein targets and with the same targets given explicitly; oracle: value on a spin- and "
         "space-structured F_p model (general = occ U virt, no spin = alpha U "
         "beta) + every free index still present + no new index. "
         "Non-trivial: >= 2 deltas sharing an index, or a delta between "
@@ -35,7 +36,7 @@ CFG = Cfg(max_obj=5, min_obj=2, max_terms=2, max_target=3, max_exp=2,
           spin_modes=[False, False, True, "mixed", "mixed"],
           names=["delta", "f", "V", "d", "x", "z", "y", "t2", "R", "A", "F",
                  "Fd", "Y"],
-          weights={"delta": 14})
+          weights={"delta": 14}, zero_deltas=12)
 
 
 @st.composite
